@@ -59,6 +59,10 @@ def _run(cfg):
     return asave.run(cfg)
 
 
+def _run_faulted(job):
+    return asave.run(job[0], job[1])
+
+
 def _killed(job):
     cfg, k, when = job
     return (cfg, k, when, asave.run_killed(cfg, (k, when)))
@@ -72,6 +76,14 @@ def main(tier, seed):
     scs = scenarios(thorough)
     with mp.get_context("fork").Pool(core.NCPU) as pool:
         traces = pool.map(_run, scs)
+        # the durability steps themselves may fail: whatever the code then does, it must not publish unsynced data
+        fj = []
+        for t in traces:
+            for k, e in enumerate(t["ev"]):
+                if e["name"] in ("flush", "fsync", "close", "write"):
+                    fj.append((t["scenario"], {k: 5}))
+        traces += pool.map(_run_faulted, fj, chunksize=8)
+    stats.extra["runs_with_failing_durability_step"] = len(fj)
     canary(traces, stats)
     judge(traces, stats, verdict, "fileutils.atomic_save")
     crash_points = sum(len(t["ev"]) for t in traces)
@@ -80,6 +92,8 @@ def main(tier, seed):
     jobs = []
     rng = random.Random(seed)
     for t in traces:
+        if t["faults"]:
+            continue
         for k in range(len(t["ev"]) - 1):
             for when in ("before", "after"):
                 if thorough or rng.random() < 0.5:
